@@ -16,6 +16,9 @@ fn bad_dens(t: Tok) -> Vec<Den> {
 }
 
 const N0: Tok = Tok::Native(0);
+/// "uusd" and "uusd/vault-7": a bank denom that contains a '/' and whose first segment is another denom
+const N2: Tok = Tok::Native(2);
+const N3: Tok = Tok::Native(3);
 const T1: Tok = Tok::Cw20(0);
 const T2: Tok = Tok::Cw20(1);
 
@@ -299,6 +302,9 @@ fn configs(prop: &str, thorough: bool) -> Vec<(Cfg, Option<usize>)> {
                 c.allow_tokens = vec![0];
                 c.allow_limits = vec![Some(1)];
                 c.channels = 1;
+                // ... and a user holds a BANK coin whose denom is spelled "cw20:<T1>"
+                c.funds.push((A, Tok::BankNamedLikeCw20(0), 1));
+                c.send_toks.push(Tok::BankNamedLikeCw20(0));
                 v.push(c);
             }
             // upgrade paths
@@ -335,15 +341,33 @@ fn configs(prop: &str, thorough: bool) -> Vec<(Cfg, Option<usize>)> {
                 v.push(c);
             }
             {
+                // a bank denom that itself contains '/', next to the denom named by its first segment
+                let mut c = Cfg::base("C12/fresh/native/denom-containing-slash");
+                c.channels = 1;
+                c.funds = vec![(A, N2, 1), (A, N3, 1)];
+                c.senders = vec![A];
+                c.send_toks = vec![N2, N3];
+                c.send_amounts = vec![1];
+                c.proper = vec![Base::Tok(N2), Base::Tok(N3)];
+                c.recv_amounts = vec![1, 2];
+                c.bad = vec![Den::Foreign(Base::Tok(N3)), Den::OtherPort(Base::Tok(N3))];
+                c.fault_bound = 1;
+                c.fault_kinds = vec![Fault::Reject];
+                c.raws = vec![0];
+                v.push(c);
+            }
+            {
                 // 2^64-1 is accepted, 2^64 refused, for both token kinds
                 let mut c = Cfg::base("C12/edge/u64-boundary");
                 c.channels = 1;
                 c.tokens = 1;
                 c.allow_init = vec![(0, None)];
-                c.funds = vec![(A, N0, U64MAX + 1), (A, T1, U64MAX + 1)];
+                // two sends of 2^64-1 each are within the packet limit; together the channel then holds
+                // more than 2^64-1, so a returning packet of 2^64 is covered by the balance
+                c.funds = vec![(A, N0, 2 * U64MAX), (A, T1, 2 * U64MAX)];
                 c.senders = vec![A];
                 c.send_toks = vec![N0, T1];
-                // no small amounts here: with 2^64 tokens they would make the space astronomically large
+                // no small amounts here: with 2^65 tokens they would make the space astronomically large
                 c.send_amounts = vec![U64MAX, U64MAX + 1];
                 c.proper = vec![Base::Tok(N0), Base::Tok(T1)];
                 c.recv_amounts = vec![U64MAX, U64MAX + 1];
@@ -398,6 +422,12 @@ fn configs(prop: &str, thorough: bool) -> Vec<(Cfg, Option<usize>)> {
                         c.fault_bound = 1;
                         c.fault_kinds = vec![Fault::Reject, Fault::Gas];
                     }
+                    if dflt.is_none() && (!thorough || allow.is_empty()) {
+                        // a user holds a BANK coin whose denom is spelled like the unlisted token T2's cw20 denom
+                        // (thorough: in the empty-allow-list configuration only, to keep the run within budget)
+                        c.funds.push((A, Tok::BankNamedLikeCw20(1), 1));
+                        c.send_toks.push(Tok::BankNamedLikeCw20(1));
+                    }
                     out.push((c, None));
                 }
             }
@@ -418,11 +448,11 @@ fn describe(prop: &str) -> (&'static str, &'static str) {
             "after every step, for every token: real holdings of the ics20 contract (kernel bank / cw20 Balance) >= sum over channels of Channel{id}.balances; monitor per (channel, denom): credit = escrowed by accepted transfers - really paid out (redemptions + refunds, measured as falls of the contract's real balance in steps on that channel) >= 0; a packet whose denom is not a proper voucher of this channel for a local token, or whose amount exceeds the channel balance reported before the step, or that is not ICS-20 data moves no bank or cw20 balance at all; holdings never move in governance / migrate steps",
         ),
         "C12" => (
-            "the C11 alphabet over the governance configurations {no allow list & no default, T1 listed with limit, T1 listed + T2 admitted by the default limit, unlisted token allowed later by governance, (thorough) unlimited, native+cw20}; storages built byte-wise in the 0.11.1 and 0.12.0-alpha1 layout (v1 ics20_config = {default_timeout, gov_contract}, no admin item, no allow list, cw20 T1 outstanding and escrowed, one more T1 send still in flight and not yet counted) and in the 0.13.0 layout (sends in flight escrowed but not yet counted; also a 0.13.0 storage with TWO channels carrying the same denominations, whose migration the real code refuses), each followed by Migrate{None | Some(2)} and then transfers, packets, acks, timeouts, Allow by governance; same-version Migrate{None|Some} at every reachable state; transfers with requested / default timeout, memo set / unset / empty at two block times; amounts 1, 2^64-1, 2^64 for native and cw20",
+            "the C11 alphabet over the governance configurations {no allow list & no default, T1 listed with limit, T1 listed + T2 admitted by the default limit, unlisted token allowed later by governance, (thorough) unlimited, native+cw20}; storages built byte-wise in the 0.11.1 and 0.12.0-alpha1 layout (v1 ics20_config = {default_timeout, gov_contract}, no admin item, no allow list, cw20 T1 outstanding and escrowed, one more T1 send still in flight and not yet counted) and in the 0.13.0 layout (sends in flight escrowed but not yet counted; also a 0.13.0 storage with TWO channels carrying the same denominations, whose migration the real code refuses), each followed by Migrate{None | Some(2)} and then transfers, packets, acks, timeouts, Allow by governance; same-version Migrate{None|Some} at every reachable state; transfers with requested / default timeout, memo set / unset / empty at two block times; amounts 1, 2^64-1, 2^64 for native and cw20 (two sends of 2^64-1 so that a returning packet of 2^64 is covered); a bank denom containing '/' (\"uusd/vault-7\") next to \"uusd\"; a bank coin whose denom is literally \"cw20:<T1>\"",
             "reference per (channel, denom): outstanding = accepted sends - sends whose error-ack/timeout was processed - amounts of incoming packets answered with a success ack, compared with Channel{id}.balances after every step; total_sent never falls; per incoming packet: ibc_packet_receive never returns Err/panics; success ack => receiver's real balance rose by exactly the amount and the channel balance fell by it; error ack => ALL Channel queries, all bank and cw20 balances, Config, Admin, ListAllowed, Allowed and the packets in flight equal the pre-state; per accepted transfer: exactly one committed IbcMsg::SendPacket, by the ics20 contract, on the requested channel, data == {amount (<= 2^64-1), denom (native name | cw20:<token>), receiver, sender = paying user, memo iff requested}, timeout timestamp == block time + (requested | default) seconds, contract holdings rose and payer's balance fell by the amount; migrations leave balances alone and arrive at outstanding == escrow",
         ),
         "C18" => (
-            "initial allow lists [] | [T1:unlimited] | [T1:1] x default gas limit None | 2; Allow{T1|T2, None|0|1|3} (0 is a genuine limit) and UpdateAdmin{G|G2} by governance G, the later/former governance G2 and a stranger X; Migrate{None|0|3} at every state; cw20 transfers of T1 and T2 and native transfers; incoming packets redeeming them; error acks and timeouts that trigger refunds",
+            "initial allow lists [] | [T1:unlimited] | [T1:1] x default gas limit None | 2; Allow{T1|T2, None|0|1|3} (0 is a genuine limit) and UpdateAdmin{G|G2} by governance G, the later/former governance G2 and a stranger X; Migrate{None|0|3} at every state; cw20 transfers of T1 and T2, native transfers, and transfers of a BANK coin whose denom is literally \"cw20:<T2>\"; incoming packets redeeming them; error acks and timeouts that trigger refunds",
             "reference {gov, allow: token -> limit, default} == Admin, Config.gov_contract, Config.default_gas_limit, fully paged ListAllowed, Allowed{T1}, Allowed{T2} after every step; Allow / UpdateAdmin accepted only from the reference governance; admin, allow list and default change in no other step (migrate may set, never unset, the default); a listed token never disappears, its limit never falls, unlimited stays unlimited (checked against the reference and, independently, pre vs. post listing); a cw20 transfer is accepted only if the token is listed or a default exists; every payout / refund sub-message dispatched by the contract carries gas_limit == allow[token] if listed (None if unlimited) else the default, native payouts carry none",
         ),
         _ => ("", ""),
